@@ -25,22 +25,23 @@ EXPLANATION = ("Every byte of the buffer is a symbolic 8-bit term, the length is
                "arbitrary byte or is truncated at every position.")
 BOUNDS = {
     "quick": "compressed_segmentation, every byte symbolic: single-block chunks, C in {1,2}, uint32+uint64, block (1,1,1) and "
-             "(2,2,2), every length 0..24; a two-block file from the real encoder with "
+             "(2,2,2), every length 0..22 incl. the differential clause against a spec-only decoder (well-formed files are decoded, to the prescribed labels); a two-block file from the real encoder with "
              "one whole 8-byte block header symbolic (every block position), two-channel files with the whole channel offset table symbolic; raw: all five dtypes, C in 1..3, every length 0..itemsize*voxels+9; "
              "mutate: every single-byte replacement and truncation of the encodings of 2-voxel chunks",
     "thorough": "lengths up to 40 (C=1) / 36 (C=2); two-block files with every byte symbolic at lengths 12..24 under a wall "
                 "budget (truncation reported as inconclusive); header/mutate harnesses on 4-8 voxel chunks",
 }
 OUTSIDE = ["JPEG decoder (libjpeg through Pillow is compiled code)", "buffers longer than the stated lengths",
-           "the clause 'valid data is never rejected' is decided for encoder-produced files (C02) and their mutations only"]
+           "'valid data' is taken conservatively: every range a file references lies inside it and every voxel of every block "
+           "(padding included) indexes an existing table entry"]
 
 
 def configs(tier, seed):
     out = []
     quick = tier == "quick"
     cases = [  # C, (Z,Y,X), block(x,y,z), dtype, lengths
-        (1, (1, 1, 1), (1, 1, 1), "uint32", range(0, 25 if quick else 41)),
-        (1, (1, 1, 1), (1, 1, 1), "uint64", range(0, 25 if quick else 41)),
+        (1, (1, 1, 1), (1, 1, 1), "uint32", range(0, 23 if quick else 41)),
+        (1, (1, 1, 1), (1, 1, 1), "uint64", range(0, 23 if quick else 41)),
         (1, (1, 1, 1), (2, 2, 2), "uint32", range(8, 21 if quick else 33)),     # chunk smaller than the block
         # two channels: below 24 bytes everything is "too short"; from 24 on the path count is the
         # product over the channels (680 s for L=24), hence thorough only; the quick tier covers the
@@ -90,15 +91,34 @@ def _patched():
     return ce, cs
 
 
-def _judge(ctx, ce, enc, buf, C, shape, dtype):
+def _judge(ctx, ce, enc, buf, C, shape, dtype, differential=False):
     Z, Y, X = shape
+    rejected = False
+    out = None
     try:
         out = enc.decode(buf, (X, Y, Z))
     except ce.InvalidFormatError:
         ctx.ok("InvalidFormatError")
+        rejected = True
+    if not rejected:
+        ok = getattr(out, "shape", None) == (C, Z, Y, X) and real_np.dtype(out.dtype) == real_np.dtype(dtype)
+        ctx.prove(ok, "returned-array-has-requested-shape-and-dtype", detail=f"{getattr(out, 'shape', None)} {getattr(out, 'dtype', None)}")
+        if not ok:
+            return
+    if not differential:
         return
-    ok = getattr(out, "shape", None) == (C, Z, Y, X) and real_np.dtype(out.dtype) == real_np.dtype(dtype)
-    ctx.prove(ok, "returned-array-has-requested-shape-and-dtype", detail=f"{getattr(out, 'shape', None)} {getattr(out, 'dtype', None)}")
+    # differential clause: a file that the format text accepts must be decoded, and to the same labels
+    from ..oracles import cseg as spec
+    try:
+        ref = spec.spec_decode_sym(ctx, buf, C, (Z, Y, X), enc.block_size, real_np.dtype(dtype).itemsize)
+    except spec.SpecError:
+        ctx.ok("spec-reader-rejects-too" if rejected else "spec-reader-stricter-than-decoder")
+        return
+    if rejected:
+        ctx.fail("valid-data-rejected", detail="the file is well formed according to the format text")
+        return
+    conds = [out.a[c, z, y, x].e == ref[c][z][y][x] for c in range(C) for z in range(Z) for y in range(Y) for x in range(X)]
+    ctx.prove(z3.And(conds), "valid-data-decoded-to-the-labels-the-format-prescribes")
 
 
 def H_cseg(ctx, cfg):
@@ -110,7 +130,7 @@ def H_cseg(ctx, cfg):
     for fid, expr in regions_for(PROPERTY, "cseg"):
         ctx.region(fid, eval(expr, {"z3": z3, "b": bs, "C": C, "L": L, "cfg": cfg}))
     enc = ce.CompressedSegmentationEncoder(dtype, C, cfg["block"])
-    _judge(ctx, ce, enc, buf, C, cfg["shape"], dtype)
+    _judge(ctx, ce, enc, buf, C, cfg["shape"], dtype, differential=True)
 
 
 def H_raw(ctx, cfg):
@@ -158,7 +178,7 @@ def H_header(ctx, cfg):
     ctx.input("pos", pos)
     bs = list(valid.bs)
     bs[pos:pos + 8] = hb
-    _judge(ctx, ce, enc, SBytes(bs), C, cfg["shape"], dtype)
+    _judge(ctx, ce, enc, SBytes(bs), C, cfg["shape"], dtype, differential=True)
 
 
 def H_mutate(ctx, cfg):
@@ -190,14 +210,28 @@ def H_mutate(ctx, cfg):
 
 def _run_real(enc, ce, buf, C, shape, dtype):
     Z, Y, X = shape
+    from ..oracles import cseg as spec
+    from ..harness.c04 import _ConcreteCtx
+    ref = None
+    try:
+        ref = spec.spec_decode_sym(_ConcreteCtx(), SBytes(bytes(buf)), C, (Z, Y, X), enc.block_size, real_np.dtype(dtype).itemsize)
+    except spec.SpecError:
+        pass
     try:
         out = enc.decode(bytes(buf), (X, Y, Z))
-    except ce.InvalidFormatError:
+    except ce.InvalidFormatError as e:
+        if ref is not None:
+            return True, f"well-formed file rejected ({e}): {bytes(buf).hex()}"
         return False, "InvalidFormatError (allowed)"
     except Exception as e:
         return True, f"decoder raised {type(e).__name__}: {e} on {bytes(buf).hex()}"
     if out.shape != (C, Z, Y, X) or out.dtype != real_np.dtype(dtype):
         return True, f"decoder returned shape {out.shape} dtype {out.dtype} on {bytes(buf).hex()}"
+    if ref is not None:
+        want = real_np.array([[[[z3.simplify(ref[c][z][y][x]).as_long() for x in range(X)] for y in range(Y)] for z in range(Z)]
+                              for c in range(C)], dtype=dtype)
+        if not real_np.array_equal(out, want):
+            return True, f"well-formed file decoded to {out.ravel().tolist()}, the format prescribes {want.ravel().tolist()}: {bytes(buf).hex()}"
     return False, "array of the requested shape (allowed)"
 
 
